@@ -44,7 +44,8 @@ func findHub(p *core.Program, r *core.Report, rule string) *hubAnchors {
 	return a
 }
 
-// pairedEdge: edge on which the service was found trusted (paired).
+// pairedEdge: edge on which the service was found trusted (paired) - directly or
+// through a hub helper whose every true result implies paired-or-queued.
 func pairedEdge(b *ssa.BasicBlock, idx int) bool {
 	i := core.BlockIf(b)
 	if i == nil {
@@ -55,14 +56,98 @@ func pairedEdge(b *ssa.BasicBlock, idx int) bool {
 	if !ok || !truth {
 		return false
 	}
+	return gateCall(c, 3)
+}
+
+// gateCall: a true result of this call implies that the service is paired or queued for pairing.
+func gateCall(c *ssa.Call, depth int) bool {
 	if core.CallsMethodNamed(c, apiPath, "ServiceDetails", "Trusted") {
 		return true
 	}
-	if f := c.Call.StaticCallee(); f != nil && f.Name() == "IsRemoteServiceForSKIPaired" && core.TypeIs(f.Signature.Recv().Type(), core.ModulePath+"/hub", "Hub") {
+	f := c.Call.StaticCallee()
+	if f == nil || f.Signature.Recv() == nil || !core.TypeIs(f.Signature.Recv().Type(), core.ModulePath+"/hub", "Hub") {
+		return false
+	}
+	if f.Name() == "IsRemoteServiceForSKIPaired" {
 		return true
+	}
+	if depth <= 0 || f.Blocks == nil || f.Signature.Results().Len() != 1 {
+		return false
+	}
+	// helper: every return value is a gate value
+	ok, any := true, false
+	core.EachInstr(f, func(in ssa.Instruction) {
+		ret, isRet := in.(*ssa.Return)
+		if !isRet || ret.Block() == f.Recover {
+			return
+		}
+		any = true
+		rv := core.ResultOf(ret, 0)
+		if isBoolConst(rv, true) {
+			// `return true` is fine on a branch that was entered over a gate edge
+			if !core.Guarded(ret, orEdges(pairedEdge, queuedEdgeGlobal)) {
+				ok = false
+			}
+			return
+		}
+		if !gateValue(rv, depth-1, nil, -1) {
+			ok = false
+		}
+	})
+	return ok && any
+}
+
+var gQueuedConst *types.Const
+
+// gateValue: v can only be true when the service is paired or queued. For a phi
+// operand that is the constant true, the incoming edge itself must be a gate edge.
+func gateValue(v ssa.Value, depth int, phiBlock *ssa.BasicBlock, predIdx int) bool {
+	if depth < 0 {
+		return false
+	}
+	if c := core.ConstOf(v); c != nil && c.Kind() == constant.Bool {
+		if !constant.BoolVal(c) {
+			return true
+		}
+		// constant true: only acceptable when it flows in over a gate edge
+		if phiBlock != nil && predIdx >= 0 {
+			pred := phiBlock.Preds[predIdx]
+			for i, sblk := range pred.Succs {
+				if sblk == phiBlock && (pairedEdge(pred, i) || queuedEdgeGlobal(pred, i)) {
+					return true
+				}
+			}
+		}
+		return false
+	}
+	switch x := v.(type) {
+	case *ssa.Call:
+		return gateCall(x, depth)
+	case *ssa.BinOp:
+		if (x.Op == token.EQL) && gQueuedConst != nil {
+			isQ := func(a, b ssa.Value) bool {
+				k := core.ConstOf(b)
+				if k == nil || !types.Identical(b.Type(), gQueuedConst.Type()) || !constant.Compare(k, token.EQL, gQueuedConst.Val()) {
+					return false
+				}
+				call, ok := core.Canon(a).(*ssa.Call)
+				return ok && core.CallsMethodNamed(call, apiPath, "ConnectionStateDetail", "State")
+			}
+			return isQ(x.X, x.Y) || isQ(x.Y, x.X)
+		}
+		return false
+	case *ssa.Phi:
+		for k, e := range x.Edges {
+			if !gateValue(e, depth-1, x.Block(), k) {
+				return false
+			}
+		}
+		return len(x.Edges) > 0
 	}
 	return false
 }
+
+var queuedEdgeGlobal core.EdgeFilter = func(*ssa.BasicBlock, int) bool { return false }
 
 // connStateEdge: edge on which a ConnectionStateDetail.State() value equals the named api constant.
 func connStateEdge(p *core.Program, constName string) core.EdgeFilter {
@@ -185,103 +270,10 @@ func checkC10(p *core.Program, r *core.Report) {
 		return
 	}
 	queued := connStateEdge(p, "ConnectionStateQueued")
+	gQueuedConst = p.Const("api", "ConnectionStateQueued")
+	queuedEdgeGlobal = queued
 	gate := orEdges(pairedEdge, queued)
-	// R1
-	if len(a.dialFns) != 1 {
-		r.Fail(R1, "dial functions", "", fmt.Sprintf("websocket.Dialer.Dial must be called from exactly one function, found %d", len(a.dialFns)))
-	}
-	for _, d := range a.dialFns {
-		if p.PkgShort(d) != "hub" {
-			r.Fail(R1, "dial in "+p.FnName(d), p.Pos(d.Pos()), "a websocket connection is dialled outside package hub")
-			continue
-		}
-		n := 0
-		for _, s := range core.Sites(p.RepoFuncs(), func(in ssa.Instruction) bool {
-			c := core.Common(in)
-			return c != nil && c.StaticCallee() == d
-		}) {
-			n++
-			key := "call of " + p.FnName(d) + " in " + p.FnName(s.Fn)
-			if core.Guarded(s.In, gate) {
-				r.OK(R1, key, p.Pos(s.In.Pos()), "dominated by the paired-or-queued pass edge in the same invocation")
-			} else {
-				r.Fail(R1, key, p.Pos(s.In.Pos()), "a dial is started on a path that did not check, in this invocation, that the SKI is (still) paired or queued for pairing: mDNS-announced or meanwhile unregistered SKIs get dialled")
-			}
-		}
-		if n == 0 {
-			r.Fail(R1, "callers of "+p.FnName(d), "", "the dial function has no caller: registered peers are never dialled")
-		}
-		// the dialled SKI service and the checked one are the same value is covered by C02.R1
-	}
-	// client-role construction only in the dial function
-	roleClient := p.Const("ship", "ShipRoleClient")
-	for _, s := range core.Sites(p.RepoFuncs(), func(in ssa.Instruction) bool {
-		c := core.Common(in)
-		return c != nil && c.StaticCallee() == a.nch
-	}) {
-		c := core.Common(s.In)
-		k := core.ConstOf(c.Args[2])
-		if k == nil || roleClient == nil {
-			r.Fail(R1, "role of NewConnectionHandler in "+p.FnName(s.Fn), p.Pos(s.In.Pos()), "connection role is not a constant")
-			continue
-		}
-		if constant.Compare(k, token.EQL, roleClient.Val()) {
-			key := "client-role construction in " + p.FnName(s.Fn)
-			isDial := false
-			for _, d := range a.dialFns {
-				if s.Fn == d {
-					isDial = true
-				}
-			}
-			if isDial {
-				r.OK(R1, key, p.Pos(s.In.Pos()), "only the dial function creates client-role (locally trusted) connections")
-			} else {
-				r.Fail(R1, key, p.Pos(s.In.Pos()), "a client-role connection (trusted by role) is constructed outside the gated dial function")
-			}
-		}
-	}
-	// report -> attempt coordinator guarded by not-connected and paired-or-queued
-	rep := p.Method("hub", "Hub", "ReportMdnsEntries")
-	if rep == nil {
-		r.Unresolved(R1, "hub.Hub.ReportMdnsEntries")
-	} else {
-		mayDial := core.NewMay(p, true, func(in ssa.Instruction) bool { return core.IsStaticCall(in, dialName) })
-		n := 0
-		core.EachInstr(rep, func(in ssa.Instruction) {
-			c := core.Common(in)
-			if c == nil || c.StaticCallee() == nil || !p.InRepo(c.StaticCallee()) || !mayDial.Fn(c.StaticCallee()) {
-				return
-			}
-			n++
-			key := "mDNS report starts attempt via " + p.FnName(c.StaticCallee())
-			if core.Guarded(in, gate) {
-				r.OK(R1, key, p.Pos(in.Pos()), "only for paired-or-queued SKIs")
-			} else {
-				r.Fail(R1, key, p.Pos(in.Pos()), "an mDNS report starts a connection attempt without the paired-or-queued check")
-			}
-		})
-		if n == 0 {
-			r.Fail(R1, "mDNS report starts attempt", p.Pos(rep.Pos()), "ReportMdnsEntries no longer starts connection attempts")
-		}
-	}
-	// Queued only under RegisterRemoteSKI
-	reg := p.Method("hub", "Hub", "RegisterRemoteSKI")
-	cq := p.Const("api", "ConnectionStateQueued")
-	for _, s := range core.Sites(nonAPIFuncs(p), func(in ssa.Instruction) bool {
-		c := core.Common(in)
-		if c == nil || !core.CallsMethodNamed(in, apiPath, "ConnectionStateDetail", "SetState") || len(c.Args) != 2 {
-			return false
-		}
-		k := core.ConstOf(c.Args[1])
-		return k == nil || (cq != nil && constant.Compare(k, token.EQL, cq.Val()))
-	}) {
-		key := "SetState(Queued) in " + p.FnName(s.Fn)
-		if s.Fn == reg {
-			r.OK(R1, key, p.Pos(s.In.Pos()), "user registration")
-		} else {
-			r.Fail(R1, key, p.Pos(s.In.Pos()), "a service is queued for pairing (dial allowed) outside RegisterRemoteSKI")
-		}
-	}
+	checkDialGate(p, r, a, R1, gate)
 	r.Floor(R1, 4)
 
 	// R2 / R3
@@ -461,5 +453,126 @@ func checkAbortEntry(p *core.Program, r *core.Report, rule string) {
 				r.Fail(rule, key, "", fmt.Sprintf("cancelling while the connection is in %s does not end the handshake (ends in %v): it can complete later", st, ends))
 			}
 		}
+	}
+}
+
+// checkDialGate: single gated dial function, client-role construction only there, the mDNS report starts
+// attempts only behind the gate, Queued only set by RegisterRemoteSKI, registration records trust on all paths.
+func checkDialGate(p *core.Program, r *core.Report, a *hubAnchors, R1 string, gate core.EdgeFilter) {
+	// R1
+	if len(a.dialFns) != 1 {
+		r.Fail(R1, "dial functions", "", fmt.Sprintf("websocket.Dialer.Dial must be called from exactly one function, found %d", len(a.dialFns)))
+	}
+	for _, d := range a.dialFns {
+		if p.PkgShort(d) != "hub" {
+			r.Fail(R1, "dial in "+p.FnName(d), p.Pos(d.Pos()), "a websocket connection is dialled outside package hub")
+			continue
+		}
+		n := 0
+		for _, s := range core.Sites(p.RepoFuncs(), func(in ssa.Instruction) bool {
+			c := core.Common(in)
+			return c != nil && c.StaticCallee() == d
+		}) {
+			n++
+			key := "call of " + p.FnName(d) + " in " + p.FnName(s.Fn)
+			if core.Guarded(s.In, gate) {
+				r.OK(R1, key, p.Pos(s.In.Pos()), "dominated by the paired-or-queued pass edge in the same invocation")
+			} else {
+				r.Fail(R1, key, p.Pos(s.In.Pos()), "a dial is started on a path that did not check, in this invocation, that the SKI is (still) paired or queued for pairing: mDNS-announced or meanwhile unregistered SKIs get dialled")
+			}
+		}
+		if n == 0 {
+			r.Fail(R1, "callers of "+p.FnName(d), "", "the dial function has no caller: registered peers are never dialled")
+		}
+		// the dialled SKI service and the checked one are the same value is covered by C02.R1
+	}
+	// client-role construction only in the dial function
+	roleClient := p.Const("ship", "ShipRoleClient")
+	for _, s := range core.Sites(p.RepoFuncs(), func(in ssa.Instruction) bool {
+		c := core.Common(in)
+		return c != nil && c.StaticCallee() == a.nch
+	}) {
+		c := core.Common(s.In)
+		k := core.ConstOf(c.Args[2])
+		if k == nil || roleClient == nil {
+			r.Fail(R1, "role of NewConnectionHandler in "+p.FnName(s.Fn), p.Pos(s.In.Pos()), "connection role is not a constant")
+			continue
+		}
+		if constant.Compare(k, token.EQL, roleClient.Val()) {
+			key := "client-role construction in " + p.FnName(s.Fn)
+			isDial := false
+			for _, d := range a.dialFns {
+				if s.Fn == d {
+					isDial = true
+				}
+			}
+			if isDial {
+				r.OK(R1, key, p.Pos(s.In.Pos()), "only the dial function creates client-role (locally trusted) connections")
+			} else {
+				r.Fail(R1, key, p.Pos(s.In.Pos()), "a client-role connection (trusted by role) is constructed outside the gated dial function")
+			}
+		}
+	}
+	// report -> attempt coordinator guarded by not-connected and paired-or-queued
+	rep := p.Method("hub", "Hub", "ReportMdnsEntries")
+	if rep == nil {
+		r.Unresolved(R1, "hub.Hub.ReportMdnsEntries")
+	} else {
+		mayDial := core.NewMay(p, true, func(in ssa.Instruction) bool { return core.IsStaticCall(in, dialName) })
+		n := 0
+		core.EachInstr(rep, func(in ssa.Instruction) {
+			c := core.Common(in)
+			if c == nil || c.StaticCallee() == nil || !p.InRepo(c.StaticCallee()) || !mayDial.Fn(c.StaticCallee()) {
+				return
+			}
+			n++
+			key := "mDNS report starts attempt via " + p.FnName(c.StaticCallee())
+			if core.Guarded(in, gate) {
+				r.OK(R1, key, p.Pos(in.Pos()), "only for paired-or-queued SKIs")
+			} else {
+				r.Fail(R1, key, p.Pos(in.Pos()), "an mDNS report starts a connection attempt without the paired-or-queued check")
+			}
+		})
+		if n == 0 {
+			r.Fail(R1, "mDNS report starts attempt", p.Pos(rep.Pos()), "ReportMdnsEntries no longer starts connection attempts")
+		}
+	}
+	// Queued only under RegisterRemoteSKI
+	reg := p.Method("hub", "Hub", "RegisterRemoteSKI")
+	cq := p.Const("api", "ConnectionStateQueued")
+	for _, s := range core.Sites(nonAPIFuncs(p), func(in ssa.Instruction) bool {
+		c := core.Common(in)
+		if c == nil || !core.CallsMethodNamed(in, apiPath, "ConnectionStateDetail", "SetState") || len(c.Args) != 2 {
+			return false
+		}
+		k := core.ConstOf(c.Args[1])
+		return k == nil || (cq != nil && constant.Compare(k, token.EQL, cq.Val()))
+	}) {
+		key := "SetState(Queued) in " + p.FnName(s.Fn)
+		if s.Fn == reg {
+			r.OK(R1, key, p.Pos(s.In.Pos()), "user registration")
+		} else {
+			r.Fail(R1, key, p.Pos(s.In.Pos()), "a service is queued for pairing (dial allowed) outside RegisterRemoteSKI")
+		}
+	}
+	checkRegisterTrust(p, r, R1)
+}
+
+// checkRegisterTrust: registration records the trust decision on every path (also when a connection already exists).
+func checkRegisterTrust(p *core.Program, r *core.Report, rule string) {
+	reg := p.Method("hub", "Hub", "RegisterRemoteSKI")
+	if reg == nil {
+		r.Unresolved(rule, "hub.Hub.RegisterRemoteSKI")
+		return
+	}
+	setsTrust := func(in ssa.Instruction) bool {
+		c := core.Common(in)
+		return c != nil && core.CallsMethodNamed(in, apiPath, "ServiceDetails", "SetTrusted") && len(c.Args) == 2 && isBoolConst(c.Args[1], true)
+	}
+	key := "RegisterRemoteSKI records trust on every path"
+	if bad := core.MustPass(reg, nil, setsTrust, nil); bad != nil {
+		r.Fail(rule, key, p.Pos(bad.Pos()), "a path of RegisterRemoteSKI returns without SetTrusted(true): a registration that arrives while a connection for the SKI exists but is not (yet / any more) waiting for approval is lost - the peer is never trusted, never dialled, and its retries are denied")
+	} else {
+		r.OK(rule, key, p.Pos(reg.Pos()), "SetTrusted(true) on all paths")
 	}
 }
